@@ -28,7 +28,8 @@ import (
 	"rare/pkg/slicepool"
 )
 
-var locksetTables = []string{"batcher", "extractor", "ignoreSet", "objectPool", "logger", "multitermGlobals", "aggLoop", "aggregation", "multiterm", "termrenderers"}
+var locksetTables = []string{"batcher", "extractor", "ignoreSet", "objectPool", "logger", "multitermGlobals", "aggLoop", "stageState", "stageStateFuncfile", "stdlibGlobals",
+	"aggregation", "multiterm", "termrenderers"}
 
 // statusObservable strips the time-dependent middle ("<bytes> (<rate>/s) ") of a status line.
 func statusObservable(st string) string {
